@@ -1,7 +1,7 @@
 (* Property C04 -- theorems only. *)
 From Coq Require Import Reals List Arith.
 From NV Require Import Base.RealExtra Gen.ModelFuncs Model.FitCore Proofs.WeightsP Proofs.FitCoreP
-     Proofs.ScalingP Model.FitOutcome Proofs.FitOutcomeP Model.FitRelative Proofs.FitRelativeP.
+     Proofs.ScalingP Model.FitOutcome Proofs.FitOutcomeP Model.FitRelative Proofs.FitRelativeP Proofs.RelShapeP.
 Import ListNotations.
 Local Open Scope R_scope.
 
@@ -128,3 +128,12 @@ Theorem C04_unrepaired_loop_raised : forall (P T : Type) seg (next : P -> pass P
   enough_points (p_varied first) (p_points first) = false ->
   relative_fit_old seg next s first = None.
 Proof. exact old_loop_raises. Qed.
+
+(* the predicate the correspondence check evaluates on the recorded passes of
+   every relative fit (rel_shape: at most four, all but the last done, fewer
+   than four only after a refusal) is what the loop model produces, for every
+   earlier state, first pass and oracle of later passes *)
+Theorem C04_relative_passes_have_shape : forall (P T : Type) seg (next : P -> pass P T)
+    (s : fstate P T) (first : pass P T),
+  rel_shape (map (vn P T) (first :: rel_passes seg next 3 (one_pass seg s first))) = true.
+Proof. exact relative_passes_have_shape. Qed.
